@@ -9,6 +9,8 @@
 //!                    points, redirect words; `unpack_kerns`) and compiled with the real
 //!                    `compile_from_tfm_file` (`unpack_entrypoint`).
 //!                    M and S are evaluated on the *original* program.
+//!   `n <P> | <WS>`   as `p`, but every word is run with
+//!                    `run_with_options(.., RunOptions { disable_left_boundary: true, .. })`.
 //!   `f <path>`       a corpus font (path relative to /repo): real bytes through
 //!                    `tfm::File::deserialize` and `CompiledProgram::compile_from_tfm_file`;
 //!                    words = every ruled pair, and every ruled pair followed by a third letter.
@@ -327,6 +329,7 @@ impl C05 {
         out: &mut CaseOutcome,
         penc: &str,
         marker: &str,
+        no_lb: bool,
     ) {
         for f in features(model_prog) {
             out.tag(f);
@@ -410,11 +413,18 @@ impl C05 {
             out.tag("loop:acyclic");
         }
         // ---- running words ----
-        let mut req = format!("runs {penc}");
+        let mut req = format!("{} {penc}", if no_lb { "runsn" } else { "runs" });
         let mut real: Vec<Vec<i64>> = vec![];
         for w in words {
             let s = word_string(w);
-            let items = match caught(|| compiled.run(&s).collect::<Vec<RunItem>>()) {
+            let items = match caught(|| {
+                if no_lb {
+                    let o = tfm::ligkern::RunOptions { disable_left_boundary: true, right_boundary_override: None };
+                    compiled.run_with_options(s.chars(), o).collect::<Vec<RunItem>>()
+                } else {
+                    compiled.run(&s).collect::<Vec<RunItem>>()
+                }
+            }) {
                 Ok(i) => i,
                 Err(p) => {
                     out.fail(Kind::ImplPanic, stream, format!("panic {}", strip_msg(&p)), format!("run({s:?}) panicked: {p}"));
@@ -466,7 +476,7 @@ impl C05 {
             }
             let w = &words[k];
             let detail = || {
-                let r = format!("run {penc} | {} {} | {}", w.len(), join(w), join(&real[k]));
+                let r = format!("{} {penc} | {} {} | {}", if no_lb { "runn" } else { "run" }, w.len(), join(w), join(&real[k]));
                 r
             };
             if m != 1 && !reported[0] {
@@ -647,7 +657,8 @@ impl Property for C05 {
     fn rule(&self) -> String {
         "p: every program over {a,b,c} with one rule (12 pairs incl. left boundary x (8 ligature forms x 3 letters + kern)) x right boundary none/'a', each on every word of length 1..4 (exhaustive); \
          two- and three-rule programs over the same space (sampled in quick, two-rule exhaustive on words <= 3 in thorough); random programs (<= 12 instructions, alphabet 2..5, SKIP n / STOP chains, shared and out-of-range entry points, left-boundary entry, right boundary char inside or outside the alphabet, Kern / KernAtIndex incl. missing index, rare redirect words) on random words <= 10 (incl. foreign and non-u8 chars); \
-         k: random programs through the real pack_entrypoints/unpack_entrypoint; f: every corpus .tfm through deserialize + compile_from_tfm_file on every ruled pair and ruled pair + third letter. \
+         n: random programs and a third of the one-rule programs run with disable_left_boundary; \
+         k: random programs through the real replace_lig_kern_program/compile_from_tfm_file (pack_entrypoints, unpack_entrypoint), a quarter padded to > 255 instructions; f: every corpus .tfm through deserialize + compile_from_tfm_file on every ruled pair and ruled pair + third letter. \
          Non-trivial = the program has at least one rule that applies to some word of the case (some output item is a kern or ligature, or a pair loops); distinct = distinct case string."
             .into()
     }
@@ -721,6 +732,17 @@ impl Property for C05 {
             let ws = random_words(&mut rr, &p, 12, 10);
             v.push(case_of("p", &p, &WordSet::List(ws)));
         }
+        let mut rn = rng.fork();
+        for _ in 0..nr / 4 {
+            let p = random_prog(&mut rn);
+            let ws = random_words(&mut rn, &p, 12, 8);
+            v.push(case_of("n", &p, &WordSet::List(ws)));
+        }
+        for (i, r) in rules.iter().enumerate() {
+            if i % 3 == 0 || ctx.thorough {
+                v.push(case_of("n", &prog_of_rules(&[*r], A), &WordSet::All(3, abc.clone())));
+            }
+        }
         let mut rk = rng.fork();
         for _ in 0..nk {
             let mut p = random_prog(&mut rk);
@@ -765,7 +787,7 @@ impl Property for C05 {
         let mut out = CaseOutcome::default();
         let (cmd, rest) = case.split_once(' ').unwrap_or((case, ""));
         match cmd {
-            "p" | "k" => {
+            "p" | "k" | "n" => {
                 let parts: Vec<&str> = rest.split('|').collect();
                 let prog = Prog::dec(&parse_i64s(parts[0]));
                 let ws = WordSet::dec(&parts[1..]);
@@ -804,17 +826,20 @@ impl Property for C05 {
                         Ok((cp, errs, n_redirect)) => {
                             out.tag(format!("pack:redirect-words={}", n_redirect.min(3)));
                             match prog.enc_scaled(ds) {
-                                Ok(e) => self.compare("pack", &prog, &cp, &errs, &words, drv, &mut out, &join(&e), marker),
+                                Ok(e) => self.compare("pack", &prog, &cp, &errs, &words, drv, &mut out, &join(&e), marker, cmd == "n"),
                                 Err(_) => out.tag("skipped:to_scaled-panic(C17)"),
                             }
                         }
                     }
                 } else {
+                    if cmd == "n" {
+                        out.tag("stream:no-left-boundary");
+                    }
                     let compiled = caught(|| CompiledProgram::compile(&real, ds, &kerns, entries.clone()));
                     match compiled {
                         Err(p) => out.fail(Kind::ImplPanic, "compile", format!("panic {}", strip_msg(&p)), format!("compile panicked: {p}")),
                         Ok((cp, errs)) => match prog.enc_scaled(ds) {
-                            Ok(e) => self.compare("prog", &prog, &cp, &errs, &words, drv, &mut out, &join(&e), marker),
+                            Ok(e) => self.compare(if cmd == "n" { "no-left-boundary" } else { "prog" }, &prog, &cp, &errs, &words, drv, &mut out, &join(&e), marker, cmd == "n"),
                             Err(_) => out.tag("skipped:to_scaled-panic(C17)"),
                         },
                     }
@@ -874,7 +899,7 @@ impl Property for C05 {
                             }
                         }
                         out.tag(format!("font:ruled-pairs~{}", bucket(tab.pairs.len())));
-                        self.compare("font", &q, &cp, &errs, &words, drv, &mut out, &join(&q.enc()), "");
+                        self.compare("font", &q, &cp, &errs, &words, drv, &mut out, &join(&q.enc()), "", false);
                     }
                 }
                 out.nontrivial = out.tags.iter().any(|t| t.starts_with("item:") || t == "loop:some-pair-loops");
@@ -887,7 +912,7 @@ impl Property for C05 {
     fn shrink(&self, case: &str) -> Vec<String> {
         let (cmd, rest) = case.split_once(' ').unwrap_or((case, ""));
         let mut c = vec![];
-        if cmd != "p" && cmd != "k" {
+        if cmd != "p" && cmd != "k" && cmd != "n" {
             return c;
         }
         let parts: Vec<&str> = rest.split('|').collect();
